@@ -11,7 +11,8 @@ CHECKS = {
         category="proof",
         text="Closed Coq theorems over an executable model of DictSupplementaryFileContainer: bookkeeping invariant after every "
              "history, refinement of the name map to the ghost map of names handed out, add/delete contracts, termination of the "
-             "conflict loop by pigeonhole. The model is tied to aasx.py on every run by differential execution of add/delete "
+             "conflict loop by pigeonhole; for every stream and position the stored content is what read() returns from that position "
+             "(C19_stream). The model is tied to aasx.py on every run by differential execution of add/delete "
              "sequences and of _append_counter, and an independent dict oracle searches for failing inputs.",
         note="Trusted: Coq 8.16.1 kernel + vm_compute; hand-written model Files.v tied only by the correspondence run; SHA-256 "
              "treated as injective; Python harness/oracle.",
@@ -97,7 +98,8 @@ CHECKS = {
              "number of instances on one directory, live objects and weak caches. For every call history the answers are those of "
              "one persistent map; contracts for get/add/discard/update; a retrieved object stays the one handed out while it is "
              "alive; for two threads doing get/add of one id on one instance every schedule of the modelled yield points yields a "
-             "single object (the two pre-repair races are refuted). Tied to the SDK by differential execution of seeded histories "
+             "single object (the two pre-repair races are refuted); an add whose write fails leaves the state exactly as it was and is "
+             "transparent for the rest of every history (C14_add_fault*). Tied to the SDK by differential execution of seeded histories "
              "and of all thread interleavings forced on real threads.",
         note="Partial w.r.t. OS, GC timing and the real scheduler (only interleavings at the modelled yield points). Trusted: "
              "kernel + vm_compute; hand-written model; JSON adapter and update_from exercised only through payloads (C03/C12); "
@@ -110,7 +112,9 @@ CHECKS = {
              "disciplined write (encode; temp file open/write/close; atomic rename; then marks) is all-or-nothing under every fault "
              "list (exception at any effect, failing cleanup, process death at any effect with any prefix of buffered data "
              "flushed); other files untouched; a fresh store answers every operation; a failed add is neither contained nor "
-             "marked; histories of faulty writes refine an atomic map; the pre-repair effect order is refuted. Tied to local_file.py "
+             "marked; histories of faulty writes refine an atomic map; the pre-repair effect order is refuted; for any number of "
+             "concurrent writers of one document, every interleaving and every fault the document is the old version or one writer's "
+             "complete version provided the temporary names are pairwise distinct (one shared name per process: refuted). Tied to local_file.py "
              "by fault-injection correspondence: observed effect list, outcome, directory and fresh-store answers equal the model's.",
         note="Partial w.r.t. kernel durability on power loss. Trusted: kernel + vm_compute; hand-written model; os.replace atomic; a "
              "failing open() creates nothing; buffered data reaches a file as a prefix; no strict prefix of a document parses "
@@ -188,10 +192,13 @@ CHECKS = {
              "path-wise equality with the copy at every depth (class, key, payload, qualifier/extension values, child source), "
              "identity of root / survivors / surviving qualifiers, one-level child law (added, removed, updated in place, replaced "
              "when retyped), key uniqueness preserved, root source changes only when asked. Tied by differential execution on "
-             "(live, edit(live)) pairs; oracle = canonical equality + identity + C01 checker + detachment + source rule. One open "
-             "finding (an Operation variable moved between variable sets raises AASd-022 half way).",
-        note="Trusted: kernel + vm_compute; plain attributes are one payload token per node; one child collection per node; "
-             "SubmodelElementList and Operation are oracle-only.",
+             "(live, edit(live)) pairs; oracle = canonical equality + identity + C01 checker + detachment + source rule. Nodes with "
+             "several child sets sharing one namespace (Operation) are modelled statement by statement (UpdateFromNS.v, two-phase "
+             "order of the repaired code): the update never raises on well-formed trees, each set ends with exactly the other's keys, "
+             "a child survives with its identity iff a same-class child with its key sits in the SAME set, keys stay unique across "
+             "the sets, and the pre-repair per-set order is refuted (AASd-022 for a move towards an earlier set).",
+        note="Trusted: kernel + vm_compute; plain attributes are one payload token per node; for multi-set nodes the one-level laws "
+             "are proved, the path-wise equality at every depth only for single-set nodes; SubmodelElementList is oracle-only.",
         technique="Coq proof (induction over idShort paths) + correspondence + oracle",
         design_ref="DESIGN.md 6.C12, 10.4"),
     "C16": dict(
@@ -243,7 +250,7 @@ CHECKS = {
         text="Closed Coq theorems over an executable model of WSGIApp's handlers: create/read/replace/delete/duplicate/unknown refine a "
              "map from identifier to object on the submodel routes; the invariant 'filed under its own id' holds after every history "
              "without id-changing PUT bodies (refuted otherwise: open known finding); paging follows the cursor exactly once for every "
-             "limit > 0; every mutating handler commits (finite check over the call table translated from http.py). Route table, "
+             "limit > 0, also on filtered listings (filter before slice: C10_filtered_*); every mutating handler commits (finite check over the call table translated from http.py). Route table, "
              "except clauses, statuses and commit() calls are regenerated from http.py on every run; the hand-written handler model is "
              "tied by differential execution of random request histories over in-memory and local-file stores; oracle = a Python "
              "dict as reference repository plus probes (GET at Location, GET after DELETE/PUT, listings, paging).",
